@@ -334,6 +334,14 @@ pub fn gen_world(seed: u64, run: u64, prof: &Profile) -> WorldGen {
         }
     }
     let pick_rate = |r: &mut Rng| -> String {
+        if r.chance(0.05) {
+            // a round rate minus a hair: many decimals, all nines
+            let base = *r.pick(&[5u128, 1, 25, 2, 125]);
+            let d0 = r.range(2, 4) as u32;
+            let extra = r.range(6, 12) as u32;
+            let units = base * 10u128.pow(extra) - 1;
+            return Px { units, d: d0 + extra }.render();
+        }
         if r.chance(0.25) {
             // arbitrary rate with 1-6 decimals
             let d = r.range(1, 6) as u32;
@@ -399,6 +407,20 @@ pub fn gen_world(seed: u64, run: u64, prof: &Profile) -> WorldGen {
         }
         attrs.insert(acc.clone(), have);
     }
+    if r.chance(0.04) {
+        // legal: a contract without approvers (convertible asks can then never be approved)
+        m["approvers"] = json!([]);
+    }
+    for acc in &accounts {
+        if r.chance(0.08) {
+            // an account may hold the same attribute name more than once
+            if let Some(l) = attrs.get_mut(acc) {
+                if let Some(f) = l.first().cloned() {
+                    l.push(f);
+                }
+            }
+        }
+    }
     let mut inst_mutated = false;
     if r.chance(prof.p_inst_mutate) {
         inst_mutated = true;
@@ -426,7 +448,14 @@ pub fn gen_world(seed: u64, run: u64, prof: &Profile) -> WorldGen {
         height: 1000 + r.below(1_000_000),
         time_ns: 1_600_000_000_000_000_000 + r.below(1_000_000_000) * 1_000_000_000,
         probe_seed: r.next(),
+        marker_required_attrs: BTreeMap::new(),
     };
+    let mut spec = spec;
+    for d in spec.markers.keys().cloned().collect::<Vec<_>>() {
+        if r.chance(0.25) {
+            spec.marker_required_attrs.insert(d, vec!["kyc.marker.attr".to_string()]);
+        }
+    }
     let mut wg = WorldGen {
         spec,
         base,
@@ -456,6 +485,17 @@ fn mutate_instantiate(m: &mut Value, r: &mut Rng, accounts: &[String]) {
             2 => m["supported_quote_denoms"] = json!([]),
             3 => m["executors"] = json!([]),
             4 => {
+                if r.chance(0.15) {
+                    // precisions whose low bits look small
+                    let big: u128 = match r.below(4) {
+                        0 => 1u128 << 32,
+                        1 => (1u128 << 32) + r.below(19) as u128,
+                        2 => (1u128 << 64) + r.below(19) as u128,
+                        _ => u128::MAX,
+                    };
+                    m["price_precision"] = json!(big.to_string());
+                    continue;
+                }
                 let p = *r.pick(&[0u32, 1, 2, 6, 17, 18, 19, 25]);
                 m["price_precision"] = json!(p.to_string());
                 // keep a coherent increment half of the time
@@ -464,7 +504,7 @@ fn mutate_instantiate(m: &mut Value, r: &mut Rng, accounts: &[String]) {
                 }
             }
             5 => {
-                let p: u32 = m["price_precision"].as_str().and_then(|s| s.parse().ok()).unwrap_or(0).min(20);
+                let p: u32 = m["price_precision"].as_str().and_then(|s| s.parse::<u32>().ok()).unwrap_or(0).min(20);
                 let v = match r.below(9) {
                     6 => {
                         // increments beyond 64 bits: a multiple of 10^p, or just off one
@@ -499,7 +539,19 @@ fn mutate_instantiate(m: &mut Value, r: &mut Rng, accounts: &[String]) {
                 e.push(r.pick(&["", "ab", "UPPER", "fine_addr"]).to_string());
                 m["executors"] = json!(e);
             }
-            10 => m["approvers"] = json!([]),
+            10 => {
+                if r.chance(0.5) {
+                    m["approvers"] = json!([]);
+                } else {
+                    // the same account listed twice in a row (still a coherent configuration)
+                    let k = if r.chance(0.5) { "executors" } else { "approvers" };
+                    let mut v: Vec<String> = serde_json::from_value(m[k].clone()).unwrap_or_default();
+                    if let Some(f) = v.first().cloned() {
+                        v.insert(0, f);
+                    }
+                    m[k] = json!(v);
+                }
+            }
             11 => m["convertible_base_denoms"] = json!([]),
             _ => {
                 // structurally malformed
@@ -862,7 +914,7 @@ pub fn run_one(seed: u64, run: u64, prof: &Profile, enabled: Enabled, want_sampl
 fn gen_migrate(sim: &Sim, r: &mut Rng, prof: &Profile) -> Step {
     let versions = [
         "0.15.0", "0.16.1", "0.16.2", "0.16.3", "0.17.3", "0.18.2", "0.19.0", "0.19.1", "0.19.2", "1.0.0", "1.0.1", "2.3.4",
-        "", "abc", "0.16", "v0.17.0", "0.16.02", "0.17.0-rc1", "0.16.2-rc.1", "0.16.1-beta", "0.15.0-alpha.1", "1.0.0+build5", "<absent>", "<garbage>",
+        "", "abc", "0.16", "v0.17.0", "0.16.02", "0.17.0-rc1", "0.16.2-rc.1", "0.16.1-beta", "0.15.0-alpha.1", "1.0.0+build5", "<absent>", "<garbage>", "<nodef>0.17.0", "<nodef>1.0.0",
     ];
     let set_version = if r.chance(0.12) {
         None
@@ -1090,6 +1142,33 @@ fn decide(
                     size = s0 - s0 % inc;
                 }
                 price = px.render();
+            }
+            // sometimes aim the total at a value whose fee is within a hair of a half unit
+            let mut px = px;
+            if !whale && r.chance(0.12) {
+                if let Some(f) = &cfg.bid_fee {
+                    if let Parsed::Ok(rt) = dec::parse(&f.rate) {
+                        if let Some(mant) = dec::to_u128(rt.mant) {
+                            if mant > 0 && rt.scale <= 30 {
+                                if let Some(den) = 10u128.checked_pow(rt.scale) {
+                                    // T ~ (k + 1/2) / rate
+                                    let k = r.below(40) as u128;
+                                    if let Some(num) = (2 * k + 1).checked_mul(den) {
+                                        let t = (num / (2 * mant)).max(1);
+                                        let t = if r.chance(0.3) { t + 1 } else { t };
+                                        let c = wg.inc_c.max(1);
+                                        let units = (t / c).max(1);
+                                        if units < 10u128.pow(12) {
+                                            px = Px { units, d: wg.precision };
+                                            size = inc;
+                                            price = px.render();
+                                        }
+                                    }
+                                }
+                            }
+                        }
+                    }
+                }
             }
             let total = px.units * size / 10u128.pow(px.d);
             let mut quote_size = total;
